@@ -47,6 +47,7 @@ func NewHealthCheck(consumer HealthCheckConsumer, endpoint *url.URL, interval ti
 		cancel: cancel,
 	}
 
+	simNote("hc.new", hc)
 	go hc.run()
 	return hc
 }
@@ -58,6 +59,7 @@ func (hc *HealthCheck) Close() {
 // Private
 
 func (hc *HealthCheck) run() {
+	simYield("hc.run", hc)
 	ticker := time.NewTicker(hc.interval)
 	defer ticker.Stop()
 
@@ -74,6 +76,7 @@ func (hc *HealthCheck) run() {
 }
 
 func (hc *HealthCheck) check() {
+	simYield("hc.check", hc)
 	ctx, cancel := context.WithTimeout(hc.ctx, hc.timeout)
 	defer cancel()
 
@@ -109,6 +112,7 @@ func (hc *HealthCheck) check() {
 }
 
 func (hc *HealthCheck) reportResult(success bool, err error) {
+	simYield("hc.report", hc)
 	if !success {
 		slog.Info("Healthcheck failed", "url", hc.endpoint.String(), "error", err)
 	}
